@@ -27,7 +27,7 @@ META = dict(
          "fail>suspect; range spreads land exactly on 1) x test_period in {None, 120}; (B) test_period in "
          "{60,90,120,121,600} x (min_obs in {None,1,2,3} | min_period in {60,120,150}) x 3 threshold pairs; + unknown "
          "check_type (ValueError). Each state = one real call judged per point by the scalar reference (population "
-         "Scale: 6000-point series on regular, irregular and bursty axes (25 samples at 1 s every 97 samples of 60 s); the same records in other units (values and thresholds x 2^-30, 2^-60, 2^40). std / range of the whole series; sample std / range of the (t-period, t] window). non-trivial = reference "
+         "std / range of the whole series; sample std / range of the (t-period, t] window). Scale: 6000-point series on regular, irregular and bursty axes (25 samples at 1 s every 97 samples of 60 s); the same records in other units (values and thresholds x 2^-30, 2^-60, 2^40). non-trivial = reference "
          "demands SUSPECT/FAIL/UNKNOWN somewhere",
     bounds={"quick": {"max_len": 4}, "thorough": {"max_len": 5}},
     not_judged=["missing points (C02)", "the empty series (no point to judge; totality is C01)", "std within 1e-9 of a threshold (excluded by the statement)",
